@@ -47,6 +47,7 @@ TIERS = {
 
 COLOR_OF = {(255, 255, 255, 255): "white", (0, 128, 0, 255): "green", (0, 255, 0, 255): "green", (0, 0, 255, 255): "blue", (0, 255, 255, 255): "cyan",
             (255, 0, 0, 255): "red", (255, 255, 0, 255): "yellow", (255, 0, 255, 255): "magenta"}
+ROW_CONTINUES = {"text", "midrow", "special", "extended", "tab", "BS"}  # event kinds that continue the row being written
 MERGE_GAP = 14  # frames: activity closer than this (null padding <= 5, channel-2 burst <= 6 words) belongs to one transmission window
 
 
@@ -70,6 +71,8 @@ def gen_knobs(rng):
     "nopac": rng.choice([0.0, 0.3, 0.6]),
     # probability of a tab offset between two pieces of text of a row
     "tomid": rng.choice([0.0, 0.2, 0.5]),
+    # word-by-word delivery in paint-on and roll-up: probability of idle time before a text piece of a row
+    "pause": rng.choice([0.0, 0.0, 0.3, 0.6]),
     "chan": {"double": rng.random() < 0.7, "null": rng.choice([0.0, 0.0, 0.1, 0.3]), "ch2": rng.choice([0.0, 0.0, 0.1, 0.3]),
              "parity_off": rng.choice([0.0, 0.0, 0.5, 1.0]), "line_len": rng.choice([6, 12, 20, 40, 1000]), "split": rng.choice([0.0, 0.0, 0.5, 1.0])},
     "chan2": {"double": rng.random() < 0.5, "null": rng.choice([0.0, 0.2]), "ch2": rng.choice([0.0, 0.2]), "parity_off": rng.choice([0.0, 1.0]),
@@ -327,6 +330,20 @@ def check_run(knobs, script, stats, log, seed_label):
     g = sorted([(r, cells) for r, cells in got], key=lambda x: (x[0] is None, x[0]))
     if rollup and len(g) > max(dec.depth, 1) and len(g) > len(exp_cmp):
       raise core.Violation("rollup-shows-more-rows-than-depth", "frame %d: %d rows shown\n%s" % (fmid, len(g), text[:1500]))
+    if rollup and w is not None and [c for _r, c in g] != [c for _r, c in exp_cmp]:
+      # does the reader show the row as it will be once its transmission is complete? (it creates one paragraph per
+      # roll-up state at the carriage return, so text that trickles in after a pause is displayed early)
+      j, final = i, None
+      while j < len(wins) and set(wins[j][3]) <= ROW_CONTINUES:
+        final = wins[j][2]
+        j += 1
+      if final is not None and [c for _r, c in g] == [c for _r, c in ref608.render(final)]:
+        stats.count("probe.rollup_row_shown_before_received")
+        v = core.Violation("display-differs:roll:row-shown-before-received",
+                           "frame %d (t=%s): reader shows %s\nreference shows %s until the rest of the row has been received\n%s" % (fmid, t, _show(g), _show(exp_cmp), text[:2500]))
+        if v.signature not in [x.signature for x in soft]:
+          soft.append(v)
+        continue
     if [c for _r, c in g] != [c for _r, c in exp_cmp]:
       kind = "characters" if ["".join(x[0] for x in c) for _r, c in g] != ["".join(x[0] for x in c) for _r, c in exp_cmp] else "attributes"
       if reused:
@@ -432,7 +449,8 @@ def valid_script(ops, allow_unclean=True):
     k = u[0]
     if k == "gap":
       if mode in ("roll", "paint"):
-        have_pos = False  # the text of one row is sent contiguously: after idle time a row starts with a PAC
+        # after idle time a row continues with a new word (text with a leading space) or starts again with a PAC
+        have_pos = "after-gap" if have_pos else False
       continue
     if k == "cut":
       continue
@@ -469,6 +487,10 @@ def valid_script(ops, allow_unclean=True):
     else:
       if mode is None or not have_pos:
         return False
+      if have_pos == "after-gap":
+        if not (k == "txt" and u[1].startswith(" ")):
+          return False
+        have_pos = True
       if is_mid:
         if u[1] >= 0:
           colour = u[1]
@@ -526,7 +548,7 @@ def describe():
     "simulated_time_fn": lambda agg: "%d frames (%.1f h of caption time at 30 fps) in %d transmitted words" % (
       agg.counts.get("sim.frames_simulated", 0), agg.counts.get("sim.frames_simulated", 0) / 108000.0, agg.counts.get("sim.words_transmitted", 0)),
     "assumptions": [
-      "scripts follow the three protocols on channel 1; style changes to and from roll-up are clean (EDM+ENM and idle time first); text of one row is sent contiguously",
+      "scripts follow the three protocols on channel 1; style changes to and from roll-up are clean (EDM+ENM and idle time first); in the direct modes idle time inside a row is followed by a new word (leading space) or a PAC",
       "display is compared at quiescent frames only (>= 3 frames away from any display change of the reference); inside transmission windows only the change times are judged",
       "row ends are stripped and runs of blanks collapsed; in roll-up the display is compared anchored at base row 15 on both sides (the reader forces it); the reference also tracks the base row a 608 decoder would use, and every roll-up display whose base row is not 15 is reported under the open known finding base-row-forced-to-15",
       "characters whose Unicode identity is debatable are not generated (C17 territory); background attribute codes, flash, DER and the text-mode codes are outside the statement and not generated",
